@@ -55,8 +55,10 @@ def mutate(rng, ps):
         vk = [] if vk else [(10, 'VK', None, None, ('E',))]
     # defaults: make a suffix optional
     nd = rng.randint(0, len(pos))
-    pos = [(p[0], p[1], (1 if i >= len(pos) - nd else None), p[3], p[4]) for i, p in enumerate(pos)]
-    ko = [(p[0], p[1], (1 if rng.random() < 0.5 else None), p[3], p[4]) for p in ko]
+    # default VALUES vary between the variations of one base signature (1 or 2):
+    # conciliation of unequal defaults must keep the parameter optional
+    pos = [(p[0], p[1], (rng.choice([1, 1, 2]) if i >= len(pos) - nd else None), p[3], p[4]) for i, p in enumerate(pos)]
+    ko = [(p[0], p[1], (rng.choice([1, 1, 2]) if rng.random() < 0.5 else None), p[3], p[4]) for p in ko]
     out = pos + va + ko + vk
     if len({p[0] for p in out}) != len(out):
         return ps
